@@ -1134,7 +1134,10 @@ class ParseUniq:
         start_page = vlist.get("from")
         end_page = vlist.get("to")
         children = []
-        if start_page and end_page and expander:
+        # the <pages> tags being expanded around this one: a page that transcludes itself this way is a loop
+        active = xopts.pages_active or frozenset()
+        key = (vlist.get("index", ""), start_page, end_page)
+        if start_page and end_page and expander and key not in active:
             nshandler = expander.nshandler
             page_ns = nshandler._find_namespace("Page")[1]
 
@@ -1154,9 +1157,11 @@ class ParseUniq:
             template_expander = expander.__class__(
                 rawtext, pagename=expander.pagename, wikidb=expander.db
             )
+            sub_xopts = XBunch(**xopts.__dict__)
+            sub_xopts.pages_active = active | {key}
             children = parse_txt(
                 template_expander.expandTemplates(True),
-                xopts=XBunch(**xopts.__dict__),
+                xopts=sub_xopts,
                 expander=template_expander,
                 uniquifier=template_expander.uniquifier,
             )
